@@ -14,7 +14,7 @@ PROPERTY = "C14"
 LEVEL = "exploration"
 VARIANTS = ["fast"]
 RULE = ("layouts = all sequences of <=2 (quick) / <=3 (thorough) blocks from 25 block kinds (x LF/CRLF), probe = 9 kinds x 3 column offsets, "
-        "probe in the main file or inside an included file; a case = (layout, line ending, probe kind, column); non-trivial = layout has "
+        "probe in the main file or inside an included file, for layouts of <=1 block also behind 5 same-line prefixes (statement, strings spanning lines, strings with escaped quotes); a case = (layout, line ending, probe kind, column); non-trivial = layout has "
         "at least one block; distinct by case")
 ASSUMPTIONS = [
     "line/column numbering base is calibrated on the trivial layout (no blocks): only drift is judged",
@@ -74,6 +74,15 @@ PROBES = {
     "undefined-variable": ("y = _undef1;", 60070),
 }
 COLS = [0, 1, 4]
+# something in front of the probe ON THE PROBE'S LINE: the column is that of the culprit, not of the line start
+PREFIXES = {
+    "none": "",
+    "statement": "pf = 1; ",
+    "string-multiline-dq": 'pf = "a\nbc"; ',
+    "string-multiline-sq": "pf = 'a\n\nb'; ",
+    "string-escaped-quotes": 'pf = "ab""cd"; ',
+    "string-escaped-quotes-sq": "pf = 'a''b''c'; ",
+}
 
 
 def gen(maxblocks, endings):
@@ -88,20 +97,25 @@ def gen(maxblocks, endings):
                                 if where == "include" and (n > 1 or c != 0):
                                     continue
                                 yield [list(layout), e, p, c, where]
+                                if where == "main" and n <= 1 and c != 1:
+                                    for pf in PREFIXES:
+                                        if pf != "none":
+                                            yield [list(layout), e, p, c, where, pf]
     return g
 
 
 def build(case):
-    layout, ending, probe, col, where = case
+    layout, ending, probe, col, where = case[:5]
+    prefix = PREFIXES[case[5]] if len(case) > 5 else ""
     lines = []
     if probe.endswith("-nested"):
         lines.append('#include "/inc_defs.hpp"')
     for b in layout:
         lines += BLOCKS[b]
-    probe_text = " " * col + PROBES[probe][0]
+    probe_text = " " * col + prefix + PROBES[probe][0]
     files = {k: v for k, v in INC_FILES.items() if v is not None}
     if where == "main":
-        pline = len(lines)
+        pline = len(lines) + prefix.count("\n")
         lines.append(probe_text)
         lines.append("after = 1;")
         target = "main.sqf"
@@ -170,13 +184,17 @@ def calibrate(ws, ending, probe, col, where):
 
 
 def check(ws, case):
-    layout, ending, probe, col, where = case
+    layout, ending, probe, col, where = case[:5]
+    prefix = PREFIXES[case[5]] if len(case) > 5 else ""
     base_line, base_col, base_macro = calibrate(ws, ending, probe, col, where)
+    if prefix and base_col is not None:
+        # the probe starts behind the prefix (behind the last line of it, if it spans lines)
+        base_col = base_col + len(prefix) if "\n" not in prefix else base_col - col + len(prefix.split("\n")[-1])
     text, files, pline, target = build(case)
     r, d = run(ws, text, files, "case")
     info = {"n": 1, "nontrivial": 1 if layout else 0}
     feat = "+".join(sorted(set(layout))) or "none"
-    tag = "%s|%s|%s" % (probe, where, ending)
+    tag = "%s|%s|%s" % (probe, where, ending) + ("|after-" + case[5] if len(case) > 5 else "")
     if r["outcome"] != "ok":
         return [("C14|%s|crash|%s" % (tag, feat), "layout %r: %s" % (layout, r.get("kind", r["outcome"])), None, case)], info
     o = observe(r, probe)
